@@ -15,6 +15,22 @@ Spec format (plain JSON):
               repeats the label); 'dt' counts days from 2000-01-03
     colnames: (optional) column labels of the 'dt' / 'ix' frames (unsorted, prefixes of one another, duplicated, integers)
     axis0   : (optional) pass axis=0 and limit positionally
+    raw     : (optional) list parallel to methods: the raw type a numeric method is passed in - None (as written) | 'f64' | 'f32' | 'i64' | 'i32' | 'float' | 'int'
+              (numpy scalars / the other python type for the same number; an integer type is used only for integral constants)
+    limraw  : (optional) 'i64' | 'i32': the limit is passed as that numpy integer
+    container: (optional) 'tuple': the method list is passed as a tuple
+    style   : (optional) call style. df_fillna: 'kw' = df_fillna(df=x, method=m, axis=0, limit=l), 'plain' = df_fillna(x, m) (limit None only);
+              nona: 'value_pos' = nona(x, float('nan'), edge), 'value_kw' = nona(a=x, value=np.nan, edge=edge), 'value_f64' = nona(x, value=np.float64('nan'), edge=edge)
+    view    : (optional) how the input objects sit in memory: 'strided' (array = every second element / column of a larger array; pandas object = column(s) cut
+              out of a wider frame, sharing its index object), 'fortran' (array = transposed / row view of a parent, pandas built on it without a copy),
+              'readonly' (array not writeable, pandas built on it without a copy). The objects they were cut from are snapshotted and compared as well.
+    ix      : further fields: type 'float' (labels = value / 4), 'unit' 'h' | 's' | 'us' and 'tod' (seconds of the day of the first label) for 'dt';
+              negative steps give a decreasing / unsorted index
+
+Sub-check session: {cols, dim, ix, colnames, view, kinds, calls: [...]}: every kind's object is built ONCE and the calls are made on it one after the other;
+a call is {fn: 'fillna', methods, raw, bare, container, limit, limraw, axis0, style, share} or {fn: 'nona', edge, bare, style}, optionally with its own 'kinds';
+share = j passes the very container object that call j passed (equal content by construction). order: 'by_object' = all calls on one object, then
+all calls on the next; 'by_call' = every call on all objects before the next call.
 
 Oracle: a scalar NaN-run walker per column over (original position, cells) rows, written from the statement; it never
 calls pandas fill functions. Every kind is compared cell by cell with the model (NaN positions exactly, other cells
@@ -22,6 +38,7 @@ bit-exactly), pandas results also by index labels / columns, the array result wi
 results, and every input object with a snapshot taken before the call.
 """
 import math
+import datetime
 
 from hypothesis import strategies as st
 
@@ -37,9 +54,21 @@ ASSUMPTIONS = [
     'list, a value of its column), shape kept, arguments unmodified',
     "'ffill_na' / 'ffill_0' stand alone, first in a list, or after row drops only (nona / fnna); after a FILL method they read the last valid index of the ORIGINAL input, which differs from 'in sequence' (DESIGN section 4): not generated",
     "'ffill_na' / 'ffill_0' on a column without any valid observation: the column may stay NaN or (ffill_0) become all 0 - the statement does not say",
-    'pandas inputs have a non-decreasing index: the default RangeIndex, a daily DatetimeIndex, integer labels not starting at 0, dates with gaps, '
-    'and (with the two restrictions below) repeated integer / date labels; column labels may be unsorted, prefixes of one another, duplicated or integers. '
-    'Decreasing / unsorted indexes are not generated (ffill_na/ffill_0 and edge compare labels; a time series is ordered)',
+    'pandas inputs: the default RangeIndex, a daily DatetimeIndex, integer labels not starting at 0 (also beyond 2**53), float labels, dates with gaps, dates starting on '
+    'month / year ends, timestamps hours / seconds / microseconds apart, and (with the two restrictions below) repeated labels; column labels may be unsorted, prefixes '
+    'of one another, duplicated, integers (also beyond 2**53) or floats. Decreasing / zig-zag indexes are generated for ffill / bfill / constants / nona / fnna only '
+    '(restriction lifted in the generalisation pass: these work by position); with ffill_na / ffill_0 and edge the index is increasing, because they compare labels '
+    '("up to the last valid observation" presumes an ordered time axis)',
+    'column labels of mixed python int / float type (an object Index such as [2**53+1, 2**53, 0.5]) are not generated: the per-column path of ffill_na / ffill_0 rebuilds '
+    'the frame with pd.concat, which re-infers the labels as float64 (9007199254740993 -> 9007199254740992.0); the statement says nothing about column labels',
+    'spelling of a call (classes 13 / 17 / 18): a numeric method may be a python int / float or a numpy int32 / int64 / float32 / float64 of the same value (bool is not a '
+    'number here: fillna(True) gives an object column), limit a python or numpy integer, the method list a list or a tuple (as_list turns a tuple into the list of its '
+    'elements; nested containers are not generated), the default arguments axis=0 / value=nan may be written out. None of this changes the expected result',
+    'views (class 14): operands may be strided / transposed / read-only arrays and Series / frames cut out of a wider frame or built on such an array without a copy; '
+    '"the input object is not modified" is then also demanded of the object the operand shares its memory with',
+    'sub-check session: a result handed out by an earlier call must keep its values while later calls run on the same operand (it is the value the caller holds; '
+    'a result that is the operand itself or a view of it stays put because the operand does). Results are NOT written to by the check (df_fillna(arr, "fnna") may '
+    'legitimately be a view of arr)',
     'identity of the result is not asserted: df_fillna returns the argument itself for method None / [] (documented) and for ffill_na / ffill_0 on a series '
     'without a valid observation; only "values as specified, argument unchanged by the call" is demanded (no-op inputs carry the labels no_nan / noop_with_method)',
     'domain restriction (K5): edge=-1 is generated for RangeIndex / DatetimeIndex objects only. edge is documented in the nona docstring, not in the statement, and on an '
@@ -280,47 +309,185 @@ def _colnames(spec, kind, ncols):
     return list(spec.get('colnames') or COLNAMES)[:ncols]
 
 
-def _build(cols, dim, kind, spec=None):
+def _array(cols, dim, view=None):
+    """(array, [objects it is a view of])"""
     import numpy as np
-    import pandas as pd
-    spec = spec or {}
-    n = len(cols[0])
+    n, ncols = len(cols[0]), len(cols)
+    if view == 'strided':
+        if dim == 1:
+            parent = np.full(2 * n + 1, -7.0)
+            a = parent[1::2]
+            a[:] = cols[0]
+        else:
+            parent = np.full((n, 2 * ncols + 1), -7.0)
+            a = parent[:, 1::2]
+            for j, c in enumerate(cols):
+                a[:, j] = c
+        return a, [parent]
+    if view == 'fortran':
+        parent = np.full((ncols + 1, n), -7.0)
+        for j, c in enumerate(cols):
+            parent[j] = c
+        return (parent[0] if dim == 1 else parent[:ncols].T), [parent]
     if dim == 1:
         a = np.array(cols[0], dtype='float64')
     else:
-        a = np.empty((n, len(cols)), dtype='float64')
+        a = np.empty((n, ncols), dtype='float64')
         for j, c in enumerate(cols):
             a[:, j] = c
-    if kind == 'arr':
-        return a
+    if view == 'readonly':
+        a.flags.writeable = False
+    elif view is not None:
+        raise ValueError('view %r' % (view,))
+    return a, []
+
+
+def _index(kind, n, spec):
+    import pandas as pd
     if kind == 'range':
-        index = None
-    elif kind == 'dt' or spec['ix']['type'] == 'dt':
-        index = pd.DatetimeIndex(_labels(kind, n, spec))
-    else:
-        index = pd.Index(_labels(kind, n, spec), dtype='int64')
+        return None
+    if kind == 'dt' or spec['ix']['type'] == 'dt':
+        return pd.DatetimeIndex(_labels(kind, n, spec))
+    return pd.Index(_labels(kind, n, spec), dtype='float64' if spec['ix']['type'] == 'float' else 'int64')
+
+
+def _build2(cols, dim, kind, spec=None):
+    """(object of `kind`, [objects it shares memory with])"""
+    import numpy as np
+    import pandas as pd
+    spec = spec or {}
+    view = spec.get('view')
+    n, ncols = len(cols[0]), len(cols)
+    if kind == 'arr':
+        return _array(cols, dim, view)
+    index = _index(kind, n, spec)
+    names = _colnames(spec, kind, ncols)
+    if view == 'strided':
+        # the object is cut out of a wider frame: it shares the frame's index object (and, lazily, its memory)
+        wide = np.full((n, ncols + 2), -7.0)
+        wide[:, -1] = NAN
+        for j, c in enumerate(cols):
+            wide[:, j + 1] = c
+        wider = pd.DataFrame(wide, index=index, columns=['__pre'] + (list(range(ncols)) if names is None else names) + ['__post'])
+        return (wider.iloc[:, 1] if dim == 1 else wider.iloc[:, 1:1 + ncols]), [wider]
+    a, parents = _array(cols, dim, view)
+    copy = None if view is None else False
     if dim == 1:
-        return pd.Series(a, index=index, dtype='float64')
-    return pd.DataFrame(a, index=index, columns=_colnames(spec, kind, len(cols)))
+        return pd.Series(a, index=index, dtype='float64', copy=copy), parents + ([a] if view else [])
+    return pd.DataFrame(a, index=index, columns=names, copy=copy), parents + ([a] if view else [])
+
+
+def _build(cols, dim, kind, spec=None):
+    return _build2(cols, dim, kind, spec)[0]
 
 
 _LABELS = {}
+_UNIT = {'D': 86400 * 10 ** 6, 'h': 3600 * 10 ** 6, 's': 10 ** 6, 'us': 1}
 
 
 def _labels(kind, n, spec=None):
     import pandas as pd
     if kind == 'range':
         return list(range(n))
-    key = (kind, n) if kind == 'dt' else (spec['ix']['type'], spec['ix']['base'], tuple(spec['ix']['pattern']), n)
+    ix = None if kind == 'dt' else spec['ix']
+    key = (kind, n) if kind == 'dt' else (ix['type'], ix['base'], tuple(ix['pattern']), ix.get('unit'), ix.get('tod'), n)
     if key not in _LABELS:
         if len(_LABELS) > 500:
             _LABELS.clear()
         if kind == 'dt':
             _LABELS[key] = [pd.Timestamp(mkdt(D0 + i)) for i in range(n)]
+        elif ix['type'] == 'int':
+            _LABELS[key] = _ix_values(ix, n)
+        elif ix['type'] == 'float':
+            _LABELS[key] = [v / 4.0 for v in _ix_values(ix, n)]
+        elif ix.get('unit', 'D') == 'D' and not ix.get('tod'):
+            _LABELS[key] = [pd.Timestamp(mkdt(D0 + i)) for i in _ix_values(ix, n)]
         else:
-            v = _ix_values(spec['ix'], n)
-            _LABELS[key] = v if spec['ix']['type'] == 'int' else [pd.Timestamp(mkdt(D0 + i)) for i in v]
+            t0 = mkdt(D0 + ix['base'], sec=ix.get('tod') or 0)
+            us = _UNIT[ix.get('unit', 'D')]
+            _LABELS[key] = [pd.Timestamp(t0 + datetime.timedelta(microseconds=v * us)) for v in _ix_values(dict(ix, base=0), n)]
     return list(_LABELS[key])
+
+
+_RAW = ('f64', 'f32', 'i64', 'i32', 'float', 'int')
+
+
+def _raw_num(m, tag):
+    """the number m in the raw type `tag` (the same value: integer types only for integral m, float32 only when exact)"""
+    import numpy as np
+    if tag is None:
+        return m
+    f = float(m)
+    integral = f == int(f) and not (f == 0 and math.copysign(1.0, f) < 0)
+    if tag in ('i64', 'i32', 'int') and integral:
+        return {'i64': np.int64, 'i32': np.int32, 'int': int}[tag](int(f))
+    if tag == 'f32' and float(np.float32(f)) == f:
+        return np.float32(f)
+    if tag in ('float', 'int'):
+        return f
+    if tag in _RAW:
+        return np.float64(f)
+    raise ValueError('raw type %r' % (tag,))
+
+
+def _method_arg(c):
+    """the method argument of the call described by c (a fillna spec or a session call)"""
+    raw = c.get('raw') or []
+    ms = [_raw_num(m, raw[i] if i < len(raw) else None) if _is_num(m) else m for i, m in enumerate(c['methods'])]
+    if c.get('bare') and len(ms) <= 1:
+        return ms[0] if ms else None
+    return tuple(ms) if c.get('container') == 'tuple' else ms
+
+
+def _limit_arg(c):
+    import numpy as np
+    if c['limit'] is None or not c.get('limraw'):
+        return c['limit']
+    return {'i64': np.int64, 'i32': np.int32}[c['limraw']](c['limit'])
+
+
+def _fillna_args(c, method, limit):
+    style = 'axis0' if c.get('axis0') else c.get('style')
+    if style == 'plain' and c['limit'] is not None:
+        raise ValueError("style 'plain' needs limit None")
+    return {'axis0': '%r, 0, %r', 'kw': 'df=, method=%r, axis=0, limit=%r', 'plain': '%r', None: '%r, limit=%r'}[style] % ((method, limit) if style != 'plain' else (method,))
+
+
+def _call_fillna(what, c, x, method, limit):
+    from pyg_base import df_fillna
+    if c.get('axis0'):
+        return call(what, df_fillna, x, method, 0, limit)
+    style = c.get('style')
+    if style == 'kw':
+        return call(what, df_fillna, df=x, method=method, axis=0, limit=limit)
+    if style == 'plain':
+        return call(what, df_fillna, x, method)
+    if style is not None:
+        raise ValueError('style %r' % (style,))
+    return call(what, df_fillna, x, method, limit=limit)
+
+
+def _call_nona(c, x):
+    """(what, result)"""
+    import numpy as np
+    from pyg_base import nona
+    edge, style = c['edge'], c.get('style')
+    if style == 'value_pos':
+        what = _what('nona', x, "float('nan'), %r" % (edge,))
+        return what, call(what, nona, x, float('nan'), edge)
+    if style == 'value_kw':
+        what = _what('nona', x, 'a=, value=np.nan, edge=%r' % (edge,))
+        return what, call(what, nona, a=x, value=np.nan, edge=edge)
+    if style == 'value_f64':
+        what = _what('nona', x, "value=np.float64('nan'), edge=%r" % (edge,))
+        return what, call(what, nona, x, value=np.float64('nan'), edge=edge)
+    if style is not None:
+        raise ValueError('style %r' % (style,))
+    if edge is None and c.get('bare'):
+        what = _what('nona', x, '')
+        return what, call(what, nona, x)
+    what = _what('nona', x, 'edge=%r' % (edge,))
+    return what, call(what, nona, x, edge=edge)
 
 
 def _snap(x):
@@ -399,6 +566,8 @@ def _render(fname, x, args):
     import numpy as np
     if isinstance(x, np.ndarray):
         xs = 'np.array(%s)' % short(x.tolist(), 200) if x.size else 'np.zeros(%s)' % (x.shape,)
+        if x.base is not None or not x.flags.writeable:
+            xs += '[a view with strides %s of an array of shape %s]' % (x.strides, x.base.shape) if x.base is not None else '[read-only]'
     else:
         ix = type(x.index).__name__ if type(x.index).__name__ == 'RangeIndex' else '[%s]' % short(', '.join(str(i)[:10] for i in x.index), 120)
         xs = '%s(%s, index=%s%s)' % (type(x).__name__, short(x.values.tolist(), 200) if x.size else 'np.zeros(%s)' % (x.shape,), ix,
@@ -474,22 +643,48 @@ def _pattern_classes(cols, dim):
 
 def _object_classes(spec, dim):
     cls = []
-    if 'ix' in spec['kinds']:
+    if 'ix' in spec['kinds'] or any('ix' in (c.get('kinds') or ()) for c in spec.get('calls', ())):
+        ix = spec['ix']
         n = len(_spec_cols(spec)[0])
-        v = _ix_values(spec['ix'], n)
+        v = _ix_values(ix, n)
         dup = len(set(v)) < len(v)
-        cls.append('ix=%s_%s' % (spec['ix']['type'], 'dup' if dup else 'unique'))
+        unsorted = any(a > b for a, b in zip(v, v[1:]))
+        cls.append('ix=%s_%s' % (ix['type'], 'dup' if dup else 'unique'))
         if dup:
             cls.append('ix_duplicate_labels')
+        if unsorted:
+            cls.append('ix_unsorted')                         # decreasing or zig-zag labels
+            if all(a > b for a, b in zip(v, v[1:])):
+                cls.append('ix_decreasing')
+        if ix['type'] == 'float':
+            cls.append('ix_float')
+        if ix['type'] == 'int' and v and max(abs(i) for i in v) > 2 ** 53:
+            cls.append('ix_int>2**53')
+        if ix['type'] == 'dt':
+            if ix.get('unit', 'D') != 'D' or ix.get('tod'):
+                cls.append('ix_intraday')                     # labels not a whole number of days apart / not at midnight
+                if ix.get('unit') == 'us':
+                    cls.append('ix_microseconds')
+            if ix['base'] in _BOUNDARY_DAYS and n:
+                cls.append('ix_starts_on_boundary_day')       # 28 / 29 Feb, 30 / 31st, 31 Dec, 1 Jan
+    if spec.get('view'):
+        cls.append('view_input')
+        cls.append('view=' + spec['view'])
     names = spec.get('colnames')
-    if dim == 2 and names and set(spec['kinds']) & {'dt', 'ix'}:
+    if dim == 2 and names and (set(spec['kinds']) & {'dt', 'ix'} or 'calls' in spec):
         names = names[:len(spec['cols'])]
         if len(set(map(str, names))) < len(names) or len(set(names)) < len(names):
             cls.append('cols_duplicated')
         if all(isinstance(c, int) for c in names):
             cls.append('cols_int')
+        elif all(isinstance(c, (int, float)) for c in names):
+            cls.append('cols_float')
         elif any(a != b and str(a) in str(b) for a in names for b in names):
             cls.append('cols_prefix')
+        if all(isinstance(c, (int, float)) for c in names):
+            cls.append('cols_numbers_only')
+            if any(abs(c) > 2 ** 53 for c in names):
+                cls.append('cols_number>2**53')
         if [str(c) for c in names] != sorted(str(c) for c in names):
             cls.append('cols_unsorted')
     return cls
@@ -497,50 +692,129 @@ def _object_classes(spec, dim):
 
 # ----------------------------------------------------------------------------- sub-check fillna
 
-def run_fillna(spec):
+class _Ctx(object):
+    """the operand of a case: cells, shape and (sub-check session) the objects built for it"""
+
+    def __init__(self, spec, keep=False):
+        self.spec = spec
+        self.dim = spec['dim']
+        self.cols = _spec_cols(spec)
+        self.ncols = len(self.cols)
+        self.n = len(self.cols[0])
+        if any(len(c) != self.n for c in self.cols):
+            raise ValueError('ragged spec')
+        self.objs = {} if keep else None
+
+    def obj(self, kind):
+        """(object, objects it shares memory with): built once per session, once per call otherwise"""
+        if self.objs is None:
+            return _build2(self.cols, self.dim, kind, self.spec)
+        if kind not in self.objs:
+            self.objs[kind] = _build2(self.cols, self.dim, kind, self.spec)
+        return self.objs[kind]
+
+
+def _values_text(x):
     import numpy as np
-    from pyg_base import df_fillna
-    dim, methods, limit = spec['dim'], spec['methods'], spec['limit']
-    cols = _spec_cols(spec)
-    ncols = len(cols)
-    n = len(cols[0])
-    if any(len(c) != n for c in cols):
-        raise ValueError('ragged spec')
-    pos, exp, flags = _model(cols, methods, limit)
+    return short(x.tolist() if isinstance(x, np.ndarray) else x.values.tolist(), 300)
+
+
+def _unchanged(what, x, before, parents, pbefore):
+    check(_snap(x) == before, '%s modified its argument: now %s', what, _Lazy2(_values_text, x))
+    for p, b in zip(parents, pbefore):
+        check(_snap(p) == b, '%s modified the object its argument is a view of / was cut from: now %s', what, _Lazy2(_values_text, p))
+
+
+class _Lazy2(object):
+    def __init__(self, f, *a):
+        self.f, self.a = f, a
+
+    def __str__(self):
+        return self.f(*self.a)
+
+    __repr__ = __str__
+
+
+def _prep_fillna(ctx, c, method):
+    """reference result of one df_fillna call (c: methods, limit, raw, bare, container, axis0, style); method = the argument object that is passed"""
+    methods, limit = c['methods'], c['limit']
+    pos, exp, flags = _model(ctx.cols, methods, limit)
     variants = [(pos, exp)]
     if 'ambiguous' in flags:
-        p2, e2, _ = _model(cols, methods, limit, zero_allnan=True)
+        p2, e2, _ = _model(ctx.cols, methods, limit, zero_allnan=True)
         variants.append((p2, e2))
-    if spec.get('bare') and len(methods) <= 1:
-        method = methods[0] if methods else None
-    else:
-        method = list(methods)
-    axis0 = bool(spec.get('axis0'))
-    args = ('%r, 0, %r' if axis0 else '%r, limit=%r') % (method, limit)
-    results = {}
-    aliased = False
-    for kind in spec['kinds']:
-        x = _build(cols, dim, kind, spec)
-        before = _snap(x)
-        what = _what('df_fillna', x, args)
-        if axis0:
-            res = call(what, df_fillna, x, method, 0, limit)
-        else:
-            res = call(what, df_fillna, x, method, limit=limit)
-        results[kind] = _check_object(what, x, kind, res, dim, ncols, variants, n, spec)
-        check(_snap(x) == before, '%s modified its argument: now %s', what, short(x.tolist() if isinstance(x, np.ndarray) else x.values.tolist(), 300))
-        if res is x and methods:
-            aliased = True
+    limit_arg = _limit_arg(c)
+    return dict(pos=pos, exp=exp, flags=flags, variants=variants, method=method, limit_arg=limit_arg, args=_fillna_args(c, method, limit_arg),
+                results={}, aliased=False, fn='df_fillna')
+
+
+def _one_fillna(ctx, c, r, kind, kept=None):
+    """the call on the object of one kind"""
+    x, parents = ctx.obj(kind)
+    before = _snap(x)
+    pbefore = [_snap(p) for p in parents]
+    what = _what('df_fillna', x, r['args'])
+    res = _call_fillna(what, c, x, r['method'], r['limit_arg'])
+    r['results'][kind] = _check_object(what, x, kind, res, ctx.dim, ctx.ncols, r['variants'], ctx.n, ctx.spec)
+    _unchanged(what, x, before, parents, pbefore)
+    if res is x and c['methods']:
+        r['aliased'] = True
+    if kept is not None:
+        kept.append((what, res, _snap(res)))
+
+
+def _cross(r):
+    """array result == .values of the pandas results"""
+    results = r['results']
     if 'arr' in results:
         for kind in results:
             if kind != 'arr':
                 d = _diff(results['arr'], results[kind])
-                check(d is None, 'df_fillna(%s): array result differs from the .values of the %s-indexed pandas result: %s', args, kind, d)
+                check(d is None, '%s: array result differs from the .values of the %s-indexed pandas result: %s', _Lazy2(str, '%s(%s)' % (r['fn'], r['args'])), kind, d)
 
-    # ---- classes / non-trivial rule
+
+def _do_fillna(ctx, c, kinds, method, kept=None):
+    r = _prep_fillna(ctx, c, method)
+    for kind in kinds:
+        _one_fillna(ctx, c, r, kind, kept)
+    _cross(r)
+    return r
+
+
+def _call_classes(c):
+    """classes of the way a call is written (raw types, container, style)"""
+    cls = []
+    raw = c.get('raw') or []
+    tags = [raw[i] for i, m in enumerate(c.get('methods', ())) if _is_num(m) and i < len(raw) and raw[i]]
+    if tags:
+        cls.append('const_raw_type')
+        if any(t in ('f64', 'f32', 'i64', 'i32') for t in tags):
+            cls.append('const_raw_numpy')
+        if any(t in ('i64', 'i32') and float(m) == int(m) for t, m in zip(raw, c['methods']) if _is_num(m) and t):
+            cls.append('const_raw_numpy_int')
+        nums = [(float(m), raw[i] if i < len(raw) else None) for i, m in enumerate(c['methods']) if _is_num(m)]
+        if any(v == w and s != t for k, (v, s) in enumerate(nums) for (w, t) in nums[k + 1:]):
+            cls.append('one_constant_two_raw_types')
+    if c.get('limraw') and c.get('limit') is not None:
+        cls.append('limit_raw_numpy')
+    if c.get('container') == 'tuple' and not (c.get('bare') and len(c['methods']) <= 1):
+        cls.append('methods_tuple')
+        if len(c['methods']) <= 1:
+            cls.append('methods_tuple_len<=1')
+    if c.get('style') and not c.get('axis0'):
+        cls.append('style=%s' % c['style'])
+        cls.append('explicit_defaults')
+    return cls
+
+
+def _fillna_classes(ctx, c, r):
+    """(nt, cls) of one df_fillna call by the rule of sub-check fillna"""
+    dim, cols, n, ncols = ctx.dim, ctx.cols, ctx.n, ctx.ncols
+    methods, limit = c['methods'], c['limit']
+    pos, exp, flags, aliased = r['pos'], r['exp'], r['flags'], r['aliased']
+    axis0 = bool(c.get('axis0'))
     pcls, info = _pattern_classes(cols, dim)
     cls = ['dim=%i' % dim, 'limit=%s' % (limit if limit is None or limit <= 3 else '>3'), 'nmethods=%i' % min(len(methods), 3)] + pcls
-    cls += _object_classes(spec, dim)
     if dim == 2:
         cls.append('ncols=%i' % ncols)
     for m in methods:
@@ -567,6 +841,11 @@ def run_fillna(spec):
             cls.append('limit>=32_and_longer_run')
     if limit is not None and any(m in DROPS for m in methods):
         cls.append('limit_with_drop')                         # cooperating parameters
+    first_drop = min([i for i, m in enumerate(methods) if m in DROPS] + [len(methods)])
+    if any(m in FILLS or m in TAILS for m in methods[first_drop + 1:]):
+        cls.append('drop_before_fill')                        # order of steps: the fill works on what the drop left
+        if dim == 2 and limit is not None and info['allnan_row'] and info['maxrun'] > limit:
+            cls.append('drop_before_limited_fill:rows_dropped')   # dropping the all-NaN rows shortens the runs the limit is counted on
     if tail:
         cls.append('tail_fill_with_trailing_run')
         if limit is not None and info['trailing_run'] > limit:
@@ -585,30 +864,37 @@ def run_fillna(spec):
         cls.append('result_is_argument')                      # observed only: no-op tail fill returns the operand, as method None does by design
     if methods and exp == cols and len(pos) == n:
         cls.append('noop_with_method')
-    if spec['kinds'] == ['dt']:
-        cls.append('dt_only(K1 class)')
-    elif any(isinstance(f, tuple) and f[0] == 'K1' for f in flags):
-        cls.append('K1_class')
     if dim == 2 and any(isinstance(f, tuple) and f[0] == 'K2' for f in flags):
         cls.append('K2_class')
     if dim == 2 and len(methods) > 1 and methods[0] in TAILS:
         cls.append('K3_class')
     if 'ambiguous' in flags:
         cls.append('ffill_0_allnan_column')
+    cls += _call_classes(c)
     nt = bool(methods) and (run_gt_limit or tail or (dim == 2 and info['allnan_row']) or 'empty' in pcls or 'all_nan' in pcls)
+    return nt, cls
+
+
+def run_fillna(spec):
+    ctx = _Ctx(spec)
+    r = _do_fillna(ctx, spec, spec['kinds'], _method_arg(spec))      # ONE method container for the calls on all kinds of object
+    nt, cls = _fillna_classes(ctx, spec, r)
+    cls += _object_classes(spec, ctx.dim)
+    if spec['kinds'] == ['dt']:
+        cls.append('dt_only(K1 class)')
+    elif any(isinstance(f, tuple) and f[0] == 'K1' for f in r['flags']):
+        cls.append('K1_class')
+    if len(spec['kinds']) > 1 and not (spec.get('bare') and len(spec['methods']) <= 1):
+        cls.append('one_container_several_calls')
     return dict(nt=nt, cls=cls)
 
 
 # ----------------------------------------------------------------------------- sub-check nona_fn
 
-def run_nona(spec):
-    import numpy as np
-    from pyg_base import nona
-    dim, edge = spec['dim'], spec['edge']
-    cols = _spec_cols(spec)
-    ncols = len(cols)
-    n = len(cols[0])
-    rowvalid = [any(not _isnan(c[i]) for c in cols) for i in range(n)]
+def _prep_nona(ctx, c):
+    """reference result of one nona call (c: edge, bare, style)"""
+    cols, n, edge = ctx.cols, ctx.n, c['edge']
+    rowvalid = [any(not _isnan(col[i]) for col in cols) for i in range(n)]
     if True not in rowvalid:
         keep = []
     elif edge is None:
@@ -619,27 +905,36 @@ def run_nona(spec):
         keep = list(range(rowvalid.index(True), n))
     else:
         raise ValueError('edge %r' % (edge,))
-    exp = [[c[i] for i in keep] for c in cols]
-    variants = [(keep, exp)]
-    results = {}
-    for kind in spec['kinds']:
-        x = _build(cols, dim, kind, spec)
-        before = _snap(x)
-        if edge is None and spec.get('bare'):
-            what = _what('nona', x, '')
-            res = call(what, nona, x)
-        else:
-            what = _what('nona', x, 'edge=%r' % (edge,))
-            res = call(what, nona, x, edge=edge)
-        results[kind] = _check_object(what, x, kind, res, dim, ncols, variants, n, spec)
-        check(_snap(x) == before, '%s modified its argument: now %s', what, short(x.tolist() if isinstance(x, np.ndarray) else x.values.tolist(), 300))
-    if 'arr' in results:
-        for kind in results:
-            if kind != 'arr':
-                d = _diff(results['arr'], results[kind])
-                check(d is None, 'nona(edge=%s): array result differs from the .values of the %s-indexed pandas result: %s', edge, kind, d)
-    pcls, info = _pattern_classes(cols, dim)
-    cls = ['dim=%i' % dim, 'edge=%s' % edge] + pcls + _object_classes(spec, dim)
+    exp = [[col[i] for i in keep] for col in cols]
+    return dict(keep=keep, rowvalid=rowvalid, variants=[(keep, exp)], results={}, fn='nona', args='edge=%s' % (edge,))
+
+
+def _one_nona(ctx, c, r, kind, kept=None):
+    x, parents = ctx.obj(kind)
+    before = _snap(x)
+    pbefore = [_snap(p) for p in parents]
+    what, res = _call_nona(c, x)
+    r['results'][kind] = _check_object(what, x, kind, res, ctx.dim, ctx.ncols, r['variants'], ctx.n, ctx.spec)
+    _unchanged(what, x, before, parents, pbefore)
+    if kept is not None:
+        kept.append((what, res, _snap(res)))
+
+
+def _do_nona(ctx, c, kinds, kept=None):
+    r = _prep_nona(ctx, c)
+    for kind in kinds:
+        _one_nona(ctx, c, r, kind, kept)
+    _cross(r)
+    return r
+
+
+def run_nona(spec):
+    ctx = _Ctx(spec)
+    dim, edge, n = ctx.dim, spec['edge'], ctx.n
+    r = _do_nona(ctx, spec, spec['kinds'])
+    keep, rowvalid = r['keep'], r['rowvalid']
+    pcls, info = _pattern_classes(ctx.cols, dim)
+    cls = ['dim=%i' % dim, 'edge=%s' % edge] + pcls + _object_classes(spec, dim) + _call_classes(spec)
     edge_keeps_interior = edge is not None and len(keep) > sum(rowvalid)
     if edge_keeps_interior:
         cls.append('edge_keeps_allnan_rows')
@@ -649,6 +944,98 @@ def run_nona(spec):
         cls.append('nothing_to_drop')                         # no-op: still a new object
     nt = info['allnan_row'] or n == 0
     return dict(nt=bool(nt), cls=cls)
+
+
+# ----------------------------------------------------------------------------- sub-check session
+
+def run_session(spec):
+    """
+    2-4 calls on ONE set of operand objects (state carried between calls must not show), method containers shared between calls where the spec says so;
+    order 'by_object' (default): all calls on the first object, then all calls on the second ... (consecutive calls on one object: one-slot caches);
+    order 'by_call': the first call on every object, then the second call on every object ... (state keyed by something weaker than the object).
+    Every call is judged by the single-call oracle from the spec's own (original) content, and at the end every result still holds what it held when returned
+    """
+    ctx = _Ctx(spec, keep=True)
+    calls = spec['calls']
+    if not 2 <= len(calls) <= 6:
+        raise ValueError('a session has 2-6 calls')
+    order = spec.get('order', 'by_object')
+    if order not in ('by_object', 'by_call'):
+        raise ValueError('order %r' % (order,))
+    # ---- the argument containers (one object per group of sharing calls) and the reference results
+    preps = []
+    for ci, c in enumerate(calls):
+        if c['fn'] == 'nona':
+            preps.append(_prep_nona(ctx, c))
+            continue
+        if c['fn'] != 'fillna':
+            raise ValueError('fn %r' % (c['fn'],))
+        share = c.get('share')
+        if share is not None:
+            o = calls[share]
+            if share >= ci or o['fn'] != 'fillna' or any(o.get(k) != c.get(k) for k in ('methods', 'raw', 'bare', 'container')):
+                raise ValueError('call %i cannot share the container of call %i' % (ci, share))
+            method = preps[share]['method']
+        else:
+            method = _method_arg(c)
+        preps.append(_prep_fillna(ctx, c, method))
+    # ---- the calls
+    kept = []
+    kinds_of = [c.get('kinds') or spec['kinds'] for c in calls]
+    if order == 'by_call':
+        seq = [(ci, kind) for ci in range(len(calls)) for kind in kinds_of[ci]]
+    else:
+        seq = [(ci, kind) for kind in spec['kinds'] for ci in range(len(calls)) if kind in kinds_of[ci]]
+    for ci, kind in seq:
+        (_one_nona if calls[ci]['fn'] == 'nona' else _one_fillna)(ctx, calls[ci], preps[ci], kind, kept)
+    for r in preps:
+        _cross(r)
+    for what, res, snap in kept:
+        check(_snap(res) == snap, '%s: the result it returned changed while later calls ran on the same argument: now %s', what, _Lazy2(_values_text, res))
+    # ---- classes
+    nts, cls = [], ['calls=%i' % len(calls), 'dim=%i' % ctx.dim, 'order=' + order] + _object_classes(spec, ctx.dim)
+    pcls, info = _pattern_classes(ctx.cols, ctx.dim)
+    cls += [k for k in pcls if k in ('empty', 'all_nan', 'no_nan', 'rows>=64', 'allnan_row_2d')]
+    prev = None
+    limits = set()
+    for ci, c in enumerate(calls):
+        if c['fn'] == 'nona':
+            cls += ['fn=nona', 'edge=%s' % c['edge']] + _call_classes(c)
+            nts.append(info['allnan_row'] or ctx.n == 0)
+            continue
+        if c.get('share') is not None:
+            cls.append('same_container_again')
+            if calls[c['share']]['limit'] != c['limit']:
+                cls.append('same_container_other_limit')
+                if c['limit'] is None:
+                    cls.append('same_container_first_with_limit_then_without')
+        nt, ccls = _fillna_classes(ctx, c, preps[ci])
+        nts.append(nt)
+        cls += ['fn=fillna'] + [k for k in ccls if k.startswith(('m=', 'limit=', 'nmethods=')) or k in (
+            'run_longer_than_limit', 'tail_fill_with_trailing_run', 'rows_dropped', 'result_is_argument', 'noop_with_method', 'drop_before_fill',
+            'const_raw_numpy', 'methods_tuple', 'explicit_defaults', 'limit_raw_numpy', 'axis0_positional')]
+        limits.add(c['limit'])
+        m = c['methods']
+        if prev is not None:
+            if m == prev:
+                cls.append('rel=same_methods')
+            elif m == prev[:len(m)]:
+                cls.append('rel=prefix')
+            elif prev == m[:len(prev)]:
+                cls.append('rel=extension')
+            elif sorted(map(repr, m)) == sorted(map(repr, prev)):
+                cls.append('rel=permutation')
+            else:
+                cls.append('rel=other')
+        prev = m
+    fns = set(c['fn'] for c in calls)
+    if len(fns) > 1:
+        cls.append('fillna_and_nona_on_one_object')
+    if len(limits) == 1:
+        cls.append('one_limit')
+    elif len(limits) > 1:
+        cls.append('several_limits')
+    return dict(nt=sum(bool(x) for x in nts) >= 1 and len(calls) >= 2, cls=sorted(set(cls)))
 
 
 # ----------------------------------------------------------------------------- sub-check const_limit
@@ -664,15 +1051,17 @@ def run_const_limit(spec):
     ncols, n = len(cols), len(cols[0])
     consts = [float(m) for m in methods if _is_num(m)]
     copies = any(m in FILLS for m in methods)
-    method = methods[0] if spec.get('bare') and len(methods) == 1 else list(methods)
-    args = '%r, limit=%r' % (method, limit)
+    method = _method_arg(spec)
+    limit_arg = _limit_arg(spec)
+    args = _fillna_args(spec, method, limit_arg)
     results = {}
     filled = 0
     for kind in spec['kinds']:
-        x = _build(cols, dim, kind, spec)
+        x, parents = _build2(cols, dim, kind, spec)
         before = _snap(x)
+        pbefore = [_snap(p) for p in parents]
         what = _what('df_fillna', x, args)
-        res = call(what, df_fillna, x, method, limit=limit)
+        res = _call_fillna(what, spec, x, method, limit_arg)
         if kind == 'arr':
             check(isinstance(res, np.ndarray), '%s: an ndarray went in, %s came out', what, type(res).__name__)
         else:
@@ -692,7 +1081,7 @@ def run_const_limit(spec):
             check(list(res.index) == _labels(kind, n, spec), '%s: index changed to %s', what, list(res.index))
             if dim == 2:
                 check(list(res.columns) == list(x.columns), '%s: columns changed from %s to %s', what, list(x.columns), list(res.columns))
-        check(_snap(x) == before, '%s modified its argument: now %s', what, short(x.tolist() if isinstance(x, np.ndarray) else x.values.tolist(), 300))
+        _unchanged(what, x, before, parents, pbefore)
         results[kind] = got
     ref = 'arr' if 'arr' in results else spec['kinds'][0]
     for kind in results:
@@ -706,7 +1095,7 @@ def run_const_limit(spec):
     nnan = sum(1 for c in cols for v in c if _isnan(v))
     left = sum(1 for c in results[ref] for v in c if _isnan(v))
     cls = ['dim=%i' % dim, 'limit=%s' % limit, 'nmethods=%i' % len(methods)] + [k for k in pcls if k in ('empty', 'all_nan', 'no_nan', 'rows>=64', 'allnan_row_2d')]
-    cls += _object_classes(spec, dim)
+    cls += _object_classes(spec, dim) + _call_classes(spec)
     if len(methods) == 1:
         cls.append('single_constant_bare' if spec.get('bare') else 'single_constant_in_list')
     if copies:
@@ -730,11 +1119,37 @@ _CONST = st.sampled_from([0, 1, -2, 0.0, 2.5, 7.0])
 _STEP = st.sampled_from(['ffill', 'bfill', 'nona', 'fnna'])
 LONG_SIZES = [64, 65, 100, 128, 200, 257]
 _LONG_RUNS = [1, 2, 3, 5, 16, 31, 32, 33, 63, 64, 65, 100, 130]
-_COLNAMES = [None, None, ['c', 'a', 'b'], ['a', 'ab', 'abc'], ['b', 'ab', 'a'], ['x', 'x', 'y'], [2, 0, 1], [0, 0, 1]]
-_IX = [dict(type='int', base=10, pattern=[1]), dict(type='int', base=-5, pattern=[1, 3]), dict(type='int', base=1, pattern=[2]),
-       dict(type='dt', base=2, pattern=[1, 3, 7]), dict(type='dt', base=0, pattern=[31]),
-       dict(type='int', base=5, pattern=[0, 2]), dict(type='int', base=0, pattern=[1, 0, 0]), dict(type='int', base=7, pattern=[0]),
-       dict(type='dt', base=0, pattern=[1, 0]), dict(type='dt', base=3, pattern=[0, 0, 1])]
+_COLNAMES = [None, None, ['c', 'a', 'b'], ['a', 'ab', 'abc'], ['b', 'ab', 'a'], ['x', 'x', 'y'], [2, 0, 1], [0, 0, 1],
+             [1.5, 0.5, -0.0], [2 ** 53 + 1, 2 ** 53, 0]]
+
+
+def _day(y, m, d):
+    return datetime.date(y, m, d).toordinal() - D0
+
+
+# month ends / year ends as the FIRST label: 28 Feb of a non-leap year, 29 Feb, the 30th / 31st, 31 Dec, 1 Jan
+_BOUNDARY_DAYS = [_day(2001, 2, 28), _day(2000, 2, 29), _day(2000, 2, 28), _day(2000, 4, 30), _day(2000, 1, 31), _day(2000, 12, 31), _day(2001, 1, 1)]
+_IX_SORTED = [dict(type='int', base=10, pattern=[1]), dict(type='int', base=-5, pattern=[1, 3]), dict(type='int', base=1, pattern=[2]),
+              dict(type='dt', base=2, pattern=[1, 3, 7]), dict(type='dt', base=0, pattern=[31]),
+              dict(type='int', base=5, pattern=[0, 2]), dict(type='int', base=0, pattern=[1, 0, 0]), dict(type='int', base=7, pattern=[0]),
+              dict(type='dt', base=0, pattern=[1, 0]), dict(type='dt', base=3, pattern=[0, 0, 1])]
+# classes 15 / 19: float labels, integer labels beyond 2**53 (neighbours collide as floats), boundary days as start, labels a fraction of a day apart
+_IX_NUM = [dict(type='float', base=2, pattern=[1]), dict(type='float', base=-3, pattern=[1, 0, 2]), dict(type='int', base=2 ** 53, pattern=[1]),
+           dict(type='int', base=2 ** 53 - 2, pattern=[1, 2, 0])]
+_IX_CAL = [dict(type='dt', base=_BOUNDARY_DAYS[0], pattern=[1]), dict(type='dt', base=_BOUNDARY_DAYS[1], pattern=[1, 30]),
+           dict(type='dt', base=_BOUNDARY_DAYS[5], pattern=[1]), dict(type='dt', base=_BOUNDARY_DAYS[3], pattern=[31, 30]),
+           dict(type='dt', base=_BOUNDARY_DAYS[0], pattern=[12], unit='h', tod=43200), dict(type='dt', base=_BOUNDARY_DAYS[5], pattern=[7, 0, 5], unit='h', tod=64800),
+           dict(type='dt', base=_BOUNDARY_DAYS[2], pattern=[1], unit='us', tod=86399), dict(type='dt', base=_BOUNDARY_DAYS[4], pattern=[999998, 1, 1], unit='us', tod=86399),
+           dict(type='dt', base=_BOUNDARY_DAYS[6], pattern=[1, 86399], unit='s', tod=0)]
+# decreasing / zig-zag labels: only for calls that do not compare labels (no ffill_na / ffill_0, no edge), see ASSUMPTIONS
+_IX_UNSORTED = [dict(type='int', base=10, pattern=[-1]), dict(type='int', base=3, pattern=[-2, 3, -3, 4]), dict(type='dt', base=40, pattern=[-1]),
+                dict(type='dt', base=5, pattern=[2, -1]), dict(type='float', base=9, pattern=[-1, 0])]
+_IX = _IX_SORTED                                              # (name kept: the pool of the first version)
+_IX_POOL = _IX_SORTED * 2 + _IX_NUM + _IX_CAL + _IX_UNSORTED
+_VIEWS = [None] * 8 + ['strided', 'strided', 'fortran', 'readonly']
+_RAWTAG = st.sampled_from(['i64', 'f64', 'i32', 'f32', 'float', 'int', None])
+_ONE_IN_6 = st.sampled_from([False] * 5 + [True])         # (hypothesis favours the first element: the plain spelling comes first)
+_ONE_IN_4 = st.sampled_from([False] * 3 + [True])
 
 
 @st.composite
@@ -822,7 +1237,39 @@ def _columns(draw, dim, max_runs, long=False):
 
 
 def _unique_ix(ix):
-    return dict(ix, pattern=[p or 1 for p in ix['pattern']])
+    """the same labels without repeats and in increasing order"""
+    return dict(ix, pattern=[abs(p) or 1 for p in ix['pattern']])
+
+
+def _sorted_ix(ix):
+    return dict(ix, pattern=[abs(p) for p in ix['pattern']])
+
+
+def _label_ix(ix):
+    """index for a call that compares labels (ffill_na / ffill_0, edge): increasing, and unique while K6 is excluded"""
+    return _unique_ix(ix) if 'K6' in EXCLUDED else _sorted_ix(ix)
+
+
+@st.composite
+def _spelling(draw, spec, raw_share=(True, True, False)):
+    """classes 13 / 17 / 18 on a df_fillna call description (spec or session call): raw types of constants and limit, tuple container, call style"""
+    methods = spec['methods']
+    nums = [i for i, m in enumerate(methods) if _is_num(m)]
+    if nums and draw(st.sampled_from(raw_share)):
+        if len(methods) >= 2 and len(methods) < 4 and draw(_ONE_IN_4):
+            # one number twice in the list, in two raw types (the second constant finds nothing left to fill)
+            methods.insert(nums[0] + 1, methods[nums[0]])
+            spec['raw'] = [None] * len(methods)
+            spec['raw'][nums[0]], spec['raw'][nums[0] + 1] = draw(st.sampled_from([('i64', 'float'), ('f64', 'int'), ('int', 'f32'), ('float', 'i32'), (None, 'f64')]))
+        else:
+            spec['raw'] = [draw(_RAWTAG) if _is_num(m) else None for m in methods]
+    if spec['limit'] is not None and draw(_ONE_IN_6):
+        spec['limraw'] = draw(st.sampled_from(['i64', 'i32']))
+    if draw(_ONE_IN_6):
+        spec['container'] = 'tuple'
+    if not spec.get('axis0') and draw(_ONE_IN_6):
+        spec['style'] = draw(st.sampled_from(['plain', 'kw'] if spec['limit'] is None else ['kw']))
+    return spec
 
 
 @st.composite
@@ -849,9 +1296,9 @@ def _fillna_case(draw, tier):
         methods = draw(st.lists(step, min_size=2, max_size=3))
     else:
         methods = [draw(st.sampled_from(TAILS))] + draw(st.lists(step, min_size=1, max_size=2))
-    ix = dict(draw(st.sampled_from(_IX)))
-    if 'K6' in EXCLUDED and any(m in TAILS for m in methods):
-        ix = _unique_ix(ix)
+    ix = dict(draw(st.sampled_from(_IX_POOL)))
+    if any(m in TAILS for m in methods):
+        ix = _label_ix(ix)
     spec = dict(cols=cols, dim=dim, methods=methods, bare=bare, limit=limit, kinds=['arr', 'range', 'dt', 'ix'], ix=ix)
     if dim == 2:
         names = draw(st.sampled_from(_COLNAMES))
@@ -859,6 +1306,10 @@ def _fillna_case(draw, tier):
             spec['colnames'] = names
     if draw(st.integers(0, 3)) == 0:
         spec['axis0'] = True
+    view = draw(st.sampled_from(_VIEWS))
+    if view:
+        spec['view'] = view
+    draw(_spelling(spec))
     return _repair(spec)
 
 
@@ -869,9 +1320,9 @@ def _nona_case(draw, tier):
     long = draw(st.integers(0, 6)) == 0
     cols = draw(_columns(dim, max_runs, long))
     edge = draw(st.sampled_from([None, None, 1, -1]))
-    ix = dict(draw(st.sampled_from(_IX)))
-    if edge is not None and 'K6' in EXCLUDED:
-        ix = _unique_ix(ix)
+    ix = dict(draw(st.sampled_from(_IX_POOL)))
+    if edge is not None:
+        ix = _label_ix(ix)
     kinds = ['arr', 'range', 'dt', 'ix']
     if edge is not None and 'K4' in EXCLUDED:
         kinds.remove('arr')
@@ -884,6 +1335,11 @@ def _nona_case(draw, tier):
         names = draw(st.sampled_from(_COLNAMES))
         if names:
             spec['colnames'] = names
+    view = draw(st.sampled_from(_VIEWS))
+    if view:
+        spec['view'] = view
+    if draw(_ONE_IN_4):
+        spec['style'] = draw(st.sampled_from(['value_pos', 'value_kw', 'value_f64']))
     return spec
 
 
@@ -901,11 +1357,119 @@ def _const_limit_case(draw, tier):
         if not any(_is_num(m) for m in methods):
             methods[draw(st.integers(0, len(methods) - 1))] = draw(_CONST)
     spec = dict(cols=cols, dim=dim, methods=methods, bare=draw(st.booleans()), limit=limit, kinds=['arr', 'range', 'dt', 'ix'],
-                ix=dict(draw(st.sampled_from(_IX))))
+                ix=dict(draw(st.sampled_from(_IX_POOL))))
     if dim == 2:
         names = draw(st.sampled_from(_COLNAMES))
         if names:
             spec['colnames'] = names
+    view = draw(st.sampled_from(_VIEWS))
+    if view:
+        spec['view'] = view
+    draw(_spelling(spec, (False, False, True)))
+    return spec
+
+
+def _valid_methods(ms):
+    """the method lists the oracle covers: at most one ffill_na / ffill_0, preceded by row drops only (see ASSUMPTIONS)"""
+    t = [i for i, m in enumerate(ms) if m in TAILS]
+    return len(t) <= 1 and all(m in DROPS for m in ms[:t[0] if t else 0])
+
+
+@st.composite
+def _session_case(draw, tier):
+    """one operand, 2-4 calls on the same objects: method lists that are prefixes / extensions / permutations of the previous one or the same container again"""
+    max_runs = 5 if tier == 'quick' else 7
+    dim = draw(st.sampled_from([1, 1, 2, 2, 2]))
+    long = draw(st.integers(0, 9)) == 0
+    cols = draw(_columns(dim, max_runs, long))
+    runs = _nan_run_lengths([_expand(c) for c in cols])
+    near = sorted(set(l + d for l in runs for d in (-1, 0, 1) if l + d >= 1))
+    nolimit = draw(st.integers(0, 2)) == 0
+    if nolimit:
+        main, alt = None, [None]
+        step = st.one_of(_STEP, _STEP, _CONST)
+    else:
+        main = draw(st.sampled_from([1, 1, 2, 3] + near[:3] + near[-3:]))
+        alt = [None, None, 1, 2, main + 1]
+        step = _STEP
+    shape = draw(st.sampled_from(['list'] * 4 + ['tail_list'] * 2 + ['drop_then_tail'] * 2 + ['single']))
+    if shape == 'single':
+        base = [draw(st.one_of(step, st.sampled_from(TAILS)))]
+    elif shape == 'list':
+        base = draw(st.lists(step, min_size=2, max_size=3))
+    elif shape == 'tail_list':
+        base = [draw(st.sampled_from(TAILS))] + draw(st.lists(step, min_size=1, max_size=2))
+    else:
+        base = draw(st.lists(st.sampled_from(DROPS), min_size=1, max_size=2)) + [draw(st.sampled_from(TAILS))] + draw(st.lists(step, max_size=1))
+
+    def fill_call(methods, limit, share=None):
+        c = dict(fn='fillna', methods=list(methods), bare=draw(st.integers(0, 3)) == 0, limit=limit)
+        if share is not None:
+            o = calls[share]
+            c.update(bare=o['bare'], share=share, **{k: o[k] for k in ('raw', 'container') if k in o})
+            if draw(st.integers(0, 3)) == 0:
+                c['axis0'] = True
+            elif limit is None and draw(st.booleans()):
+                c['style'] = 'plain'                          # "then on its own"
+            return c
+        if draw(st.integers(0, 3)) == 0:
+            c['axis0'] = True
+        return draw(_spelling(c))
+
+    calls = [fill_call(base, main if draw(st.integers(0, 3)) else draw(st.sampled_from(alt)))]
+    last = 0
+    for _ in range(draw(st.sampled_from([1, 2, 2, 3]))):
+        rel = draw(st.sampled_from(['prefix', 'extension', 'permutation', 'same', 'same', 'nona']))
+        prev = calls[last]['methods']
+        limit = main if draw(st.integers(0, 3)) else draw(st.sampled_from(alt))
+        if rel == 'nona':
+            c = dict(fn='nona', edge=draw(st.sampled_from([None, None, 1, -1])), bare=draw(st.booleans()))
+            if draw(_ONE_IN_4):
+                c['style'] = draw(st.sampled_from(['value_pos', 'value_kw', 'value_f64']))
+            calls.append(c)
+            continue
+        if rel == 'prefix' and prev:
+            c = fill_call(prev[:draw(st.integers(0, len(prev) - 1))], limit)
+        elif rel == 'extension' and len(prev) < 4:
+            c = fill_call(prev + [draw(step)], limit)
+        elif rel == 'permutation' and len(prev) > 1:
+            ms = prev[::-1] if draw(st.booleans()) else prev[1:] + prev[:1]
+            if not _valid_methods(ms):
+                ms = [m for m in prev if m in TAILS] + [m for m in prev[::-1] if m not in TAILS]
+            c = fill_call(ms, limit)
+        else:
+            # the same container object again: under the other limit ("first with extra keywords, then on its own") in half of the cases
+            c = fill_call(prev, limit if draw(st.booleans()) else draw(st.sampled_from([l for l in alt + [main] if l != calls[last]['limit']] or [limit])), share=last)
+        calls.append(c)
+        last = len(calls) - 1
+    labels = any(c['fn'] == 'nona' and c['edge'] is not None or c['fn'] == 'fillna' and any(m in TAILS for m in c['methods']) for c in calls)
+    ix = dict(draw(st.sampled_from(_IX_POOL[:12] + _IX_UNSORTED + _IX_POOL[12:])))
+    if labels:
+        ix = _label_ix(ix)
+    kinds = ['arr', 'range', 'dt', 'ix']
+    spec = dict(cols=cols, dim=dim, kinds=kinds, ix=ix, calls=calls, order=draw(st.sampled_from(['by_object', 'by_call', 'by_object'])))
+    if dim == 2:
+        names = draw(st.sampled_from(_COLNAMES))
+        if names:
+            spec['colnames'] = names
+    view = draw(st.sampled_from(_VIEWS))
+    if view:
+        spec['view'] = view
+    for c in calls:
+        if c['fn'] == 'nona':
+            k = list(kinds)
+            if c['edge'] is not None and 'K4' in EXCLUDED:
+                k.remove('arr')
+            if c['edge'] == -1 and ix['type'] == 'int' and 'K5' in EXCLUDED:
+                k.remove('ix')
+            if dim == 2 and not _expand(cols[0]) and 'K2' in EXCLUDED:
+                c['edge'], k = None, ['arr']
+            if k != kinds:
+                c['kinds'] = k
+        else:
+            tmp = _repair(dict(cols=cols, dim=dim, methods=c['methods'], limit=c['limit'], kinds=list(kinds)))
+            if tmp['kinds'] != kinds:
+                c['kinds'] = tmp['kinds']
     return spec
 
 
@@ -948,7 +1512,12 @@ SUBS = [
              '(run-length coded, runs of 1..130 around the powers of two); method = None, one of ffill/bfill/constant/nona/fnna/ffill_na/ffill_0, '
              'a list of 2-3 of ffill/bfill/constant/nona/fnna, or ffill_na/ffill_0 followed by 1-2 of them, or 1-2 row drops (nona/fnna) then ffill_na/ffill_0 then at most one more; limit None/1/2/3 or a NaN-run length -1/+0/+1; '
              'each case on the ndarray, the RangeIndex object, the daily DatetimeIndex object and a fourth object with integer labels not starting at 0 / gapped '
-             'dates / repeated labels; frame columns also unsorted, prefix-named, duplicated, integers. Oracle: NaN-run walker per column (fill iff a source '
+             'dates / repeated labels / float labels / integer labels beyond 2**53 / dates starting on 28-29 Feb, the 30th/31st, 31 Dec, 1 Jan / labels hours, '
+             'seconds or microseconds apart / (without ffill_na, ffill_0) decreasing and zig-zag labels; frame columns also unsorted, prefix-named, duplicated, '
+             'integers, floats, integers beyond 2**53. One case in five has operands that are views (strided / transposed / read-only arrays, columns cut out of a '
+             'wider frame): the objects they are cut from must stay bit-identical too. Spelling of the call: constants as numpy float64/float32/int64/int32 or the '
+             'other python type (also one constant twice in two raw types), limit as a numpy integer, the method list as a tuple, all-keyword and two-argument '
+             'calls; the ONE method container is passed to the calls on all four objects. Oracle: NaN-run walker per column (fill iff a source '
              'lies within limit, nothing else changes), all-NaN-row dropping with index labels, array == .values of pandas result, arguments bit-identical '
              'afterwards. non-trivial = a NaN run longer than limit under a fill, or a trailing run under '
              'ffill_na/ffill_0, or an all-NaN row in a frame, or empty / all-NaN input; distinct = distinct spec',
@@ -960,20 +1529,56 @@ SUBS = [
                                  'cols_unsorted': 0.04, 'cols_duplicated': 0.03, 'cols_prefix': 0.03, 'cols_int': 0.03, 'no_nan': 0.015,
                                  'ends_valid_interior_nan': 0.05, 'tail_fill_ends_valid': 0.005, 'm=const_zero': 0.02, 'zero_cell': 0.05,
                                  'limit_with_drop': 0.08, 'tail_fill_trailing_run>limit': 0.005, 'axis0_positional': 0.1, 'noop_with_method': 0.05,
-                                 'allnan_column_in_frame': 0.05, 'emptied_before_last_method': 0.001, 'rows=1': 0.008}),
+                                 'allnan_column_in_frame': 0.05, 'emptied_before_last_method': 0.001, 'rows=1': 0.008,
+                                 # classes 11-20 of the builder brief (floors: a third of the rate over seeds 1-3)
+                                 'const_raw_type': 0.018, 'const_raw_numpy': 0.015, 'const_raw_numpy_int': 0.0073,
+                                 'one_constant_two_raw_types': 0.0037, 'limit_raw_numpy': 0.02, 'methods_tuple': 0.027,
+                                 'methods_tuple_len<=1': 0.0077, 'explicit_defaults': 0.022, 'style=kw': 0.018, 'style=plain': 0.0033,
+                                 'view_input': 0.062, 'view=strided': 0.033, 'view=fortran': 0.016, 'view=readonly': 0.012, 'ix_unsorted': 0.0096,
+                                 'ix_decreasing': 0.0032, 'ix_float': 0.015, 'ix_int>2**53': 0.0074, 'ix_intraday': 0.023, 'ix_microseconds': 0.0084,
+                                 'ix_starts_on_boundary_day': 0.041, 'cols_float': 0.0098, 'cols_numbers_only': 0.046, 'cols_number>2**53': 0.0096,
+                                 'drop_before_fill': 0.049, 'drop_before_limited_fill:rows_dropped': 0.008, 'one_container_several_calls': 0.28}),
     Sub('nona_fn', _nona_case, run_nona, quick=1200, thorough=4000,
-        rule='the same vectors / frames / index and column variants through nona(x) (edge None on every object; edge 1 / -1 on the pandas objects with unique '
-             'labels). Oracle: exactly the all-NaN rows go (edge 1: only those after the last valid row, edge -1: only those before the first), labels kept, '
+        rule='the same vectors / frames / index and column variants / views through nona(x) (edge None on every object; edge 1 / -1 on the pandas objects with unique '
+             'increasing labels), the default value also spelled out (positional float nan, value=np.nan, np.float64 nan). Oracle: exactly the all-NaN rows go (edge 1: only those after the last valid row, edge -1: only those before the first), labels kept, '
              'array == .values, argument unchanged. non-trivial = the input has an all-NaN row or is empty',
         floor=0.3, class_floors={'edge_keeps_allnan_rows': 0.05, 'allnan_row_2d': 0.1, 'rows_dropped': 0.3, 'rows>=64': 0.08, 'ix_duplicate_labels': 0.05,
-                                 'ix=int_unique': 0.1, 'cols_duplicated': 0.015, 'nothing_to_drop': 0.03}),
+                                 'ix=int_unique': 0.1, 'cols_duplicated': 0.015, 'nothing_to_drop': 0.03,
+                                 # classes 11-20 of the builder brief (floors: a third of the rate over seeds 1-3)
+                                 'explicit_defaults': 0.04, 'style=value_pos': 0.013, 'style=value_kw': 0.015, 'style=value_f64': 0.0089,
+                                 'view_input': 0.058, 'view=strided': 0.029, 'view=fortran': 0.012, 'view=readonly': 0.0092, 'ix_unsorted': 0.014,
+                                 'ix_float': 0.011, 'ix_int>2**53': 0.0067, 'ix_intraday': 0.017, 'ix_starts_on_boundary_day': 0.033,
+                                 'cols_numbers_only': 0.041}),
     Sub('const_limit', _const_limit_case, run_const_limit, quick=1200, thorough=3000,
-        rule='the same vectors / frames / index and column variants with a numeric constant under limit 1/2/3 - alone (bare or in a list) or in a list of 2-3 '
+        rule='the same vectors / frames / index and column variants / views / spellings (numpy constants and limits, tuple, keywords) with a numeric constant under limit 1/2/3 - alone (bare or in a list) or in a list of 2-3 '
              'with ffill/bfill/other constants. Oracle (deliberately not: which NaN get filled): the ndarray result equals the .values of all three pandas '
              'results cell for cell, non-NaN cells unchanged, every filled cell is a constant of the list (or a value of its column when the list also fills), '
              'shape / index / columns kept, arguments unmodified. non-trivial = more NaN than limit',
         floor=0.3, class_floors={'limit_left_nan_unfilled': 0.3, 'single_constant_bare': 0.1, 'single_constant_in_list': 0.1,
-                                 'constant_with_ffill_or_bfill': 0.05, 'ncols>1': 0.1, 'm=const_zero': 0.1}),
+                                 'constant_with_ffill_or_bfill': 0.05, 'ncols>1': 0.1, 'm=const_zero': 0.1,
+                                 # classes 11-20 of the builder brief (floors: a third of the rate over seeds 1-3)
+                                 'const_raw_numpy': 0.035, 'const_raw_numpy_int': 0.015, 'one_constant_two_raw_types': 0.01,
+                                 'limit_raw_numpy': 0.038, 'methods_tuple': 0.024, 'explicit_defaults': 0.034, 'view_input': 0.066,
+                                 'ix_unsorted': 0.021, 'ix_intraday': 0.024}),
+    Sub('session', _session_case, run_session, quick=900, thorough=3000,
+        rule='state between calls: the four objects of a case are built ONCE and 2-4 calls are made on them (two sessions in three: all calls on one object, then all on the next; else call by call over the objects) - df_fillna with a method list, '
+             'then with a prefix / an extension by one step / a permutation of the previous list or the very same container object again (under the same or another '
+             'limit, positional / keyword / two-argument call), and nona(x, edge) in between; three sessions in four keep one limit. Every call is judged by the '
+             'single-call oracles of fillna / nona_fn from the ORIGINAL content of the spec (a callee that writes into the caller\'s list shows in the next call), '
+             'operands and the objects they are cut from are compared with their snapshots after every call, and at the end every result still holds the values it '
+             'held when it was returned. non-trivial = at least one call is non-trivial by the rule of its single-call sub-check',
+        floor=0.3, class_floors={
+                                 # classes 11-20 of the builder brief (floors: a third of the rate over seeds 1-3)
+                                 'order=by_object': 0.15, 'order=by_call': 0.08, 'calls=2': 0.15, 'calls=3': 0.11, 'calls=4': 0.05, 'rel=prefix': 0.12, 'rel=extension': 0.081,
+                                 'rel=permutation': 0.033, 'rel=same_methods': 0.16, 'same_container_again': 0.15,
+                                 'same_container_other_limit': 0.06, 'same_container_first_with_limit_then_without': 0.028,
+                                 'fillna_and_nona_on_one_object': 0.051, 'one_limit': 0.22, 'several_limits': 0.099, 'view_input': 0.053,
+                                 'fn=nona': 0.051, 'edge=1': 0.016, 'edge=-1': 0.014, 'm=ffill_na': 0.06, 'm=ffill_0': 0.044, 'm=const': 0.046,
+                                 'm=nona': 0.11, 'm=fnna': 0.089, 'run_longer_than_limit': 0.059, 'tail_fill_with_trailing_run': 0.045,
+                                 'rows_dropped': 0.099, 'const_raw_numpy': 0.029, 'methods_tuple': 0.043, 'explicit_defaults': 0.087,
+                                 'ix_unsorted': 0.015, 'ix_duplicate_labels': 0.032, 'noop_with_method': 0.07, 'drop_before_fill': 0.092,
+                                 'rows>=64': 0.039, 'empty': 0.021, 'all_nan': 0.016, 'nmethods=0': 0.081, 'limit_raw_numpy': 0.033,
+                                 'axis0_positional': 0.2}),
     EnumSub('vec_enum', enum_vectors, run_fillna, thorough_only=True, chunks=64,
             rule='every NaN pattern of every vector length 0-%i (position-coded values) x every program: 7 single methods, 25 ordered pairs of '
                  'ffill/bfill/constant/nona/fnna, 10 pairs headed by ffill_na/ffill_0, x limit None/1/2/3 (constant only with None); same oracle as fillna'
